@@ -337,7 +337,7 @@ Section RawAgree.
   Variable rd : St -> taken St mapraw.
 
   Lemma read_loop_fst : forall fuel st am,
-    read_loop (rd_map rd) map_len_pos fuel st (map fst am) =
+    read_loop (rd_map rd) map_not_nil fuel st (map fst am) =
     match read_loop rd keep_raw fuel st am with
     | LDone l => LDone (map fst l)
     | LErr l => LErr (map fst l)
@@ -351,10 +351,10 @@ Section RawAgree.
     change (t_doc (rd_map rd st)) with (fst (t_doc (rd st))).
     change (t_rest (rd_map rd st)) with (t_rest (rd st)).
     unfold keep_raw. destruct (t_err (rd st)); try reflexivity.
-    - destruct (map_len_pos (fst (t_doc (rd st)))).
+    - destruct (map_not_nil (fst (t_doc (rd st)))).
       + rewrite <- IH. now rewrite map_app.
       + apply IH.
-    - destruct (map_len_pos (fst (t_doc (rd st)))); [now rewrite map_app | reflexivity].
+    - destruct (map_not_nil (fst (t_doc (rd st)))); [now rewrite map_app | reflexivity].
   Qed.
 
   Theorem raw_nonraw_agree : forall fuel f,
@@ -414,141 +414,185 @@ Proof.
 Qed.
 
 (* ------------------------------------------------------------------ *)
-(* Json() rewrite and Copy *)
+(* Json() and Copy *)
 
-Lemma replace_all_aux_head : forall old new c x,
-  prefixb old (c :: x) = false ->
-  replace_all_aux old new (c :: x) 0 = c :: replace_all_aux old new x 0.
-Proof. intros old new c x H. cbn [replace_all_aux]. now rewrite H. Qed.
-
-Lemma prefixb_bsl_brace : forall t x, prefixb (bsl :: t) ("{"%char :: x) = false.
-Proof. reflexivity. Qed.
-
-Lemma json_post_brace : forall x, json_post ("{"%char :: x) = "{"%char :: json_post x.
+Lemma trim_nl_app : forall j, trim_nl (j ++ [nl_byte]) = j.
 Proof.
-  intros x. unfold json_post, replace_all, esc_lt, esc_gt, esc_amp.
-  rewrite (replace_all_aux_head _ _ _ _ (prefixb_bsl_brace _ _)).
-  rewrite (replace_all_aux_head _ _ _ _ (prefixb_bsl_brace _ _)).
-  rewrite (replace_all_aux_head _ _ _ _ (prefixb_bsl_brace _ _)).
-  reflexivity.
-Qed.
-
-(* no occurrence of old: nothing is rewritten *)
-Lemma replace_all_aux_absent : forall old new x,
-  containsb old x = false -> replace_all_aux old new x 0 = x.
-Proof.
-  intros old new x. induction x as [|c x IH]; intros H; [reflexivity|].
-  cbn [containsb] in H. apply Bool.orb_false_iff in H. destruct H as [H1 H2].
-  cbn [replace_all_aux]. rewrite H1. f_equal. apply IH. exact H2.
-Qed.
-
-Lemma json_post_id : forall j,
-  containsb esc_lt j = false -> containsb esc_gt j = false -> containsb esc_amp j = false ->
-  json_post j = j.
-Proof.
-  intros j H1 H2 H3. unfold json_post, replace_all.
-  rewrite (replace_all_aux_absent _ _ _ H1), (replace_all_aux_absent _ _ _ H2), (replace_all_aux_absent _ _ _ H3).
-  reflexivity.
+  intros j. unfold trim_nl. rewrite rev_app_distr. cbn [rev app]. 
+  replace (Ascii.eqb nl_byte nl_byte) with true by reflexivity. apply rev_involutive.
 Qed.
 
 Section CopyFacts.
-  Variable marshal : value -> bytes * bool.
+  Variable encode : bool -> value -> option bytes.
   Variable json_dec : bytes -> res value.
 
-  (* Copy under the codec hypothesis on what mxj hands to the decoder *)
-  Theorem copy_eq : forall mv j,
-    marshal mv = ("{"%char :: j, false) ->
-    json_dec (json_post ("{"%char :: j)) = Ok mv ->
-    map_copy marshal json_dec mv = Ok mv.
+  (* Copy under the codec hypothesis: the decoder maps the bytes Json() hands it back to the Map *)
+  Theorem copy_eq : forall m b,
+    encode false (VMap m) = Some b -> trim_nl b <> [] ->
+    json_dec (trim_nl b) = Ok (VMap m) ->
+    map_copy encode json_dec (VMap m) = Ok (VMap m).
   Proof.
-    intros mv j Hm Hd. unfold map_copy, map_json. rewrite Hm. cbn [fst snd].
-    rewrite json_post_brace in *. cbn [new_map_json]. exact Hd.
+    intros m b He Hn Hd. unfold map_copy, map_json, marshal_json. rewrite He.
+    unfold new_map_json. destruct (trim_nl b) eqn:E; [congruence|]. rewrite Hd. reflexivity.
   Qed.
 
-  (* ... and under the hypothesis about encoding/json alone, when the rewrite finds nothing to rewrite *)
-  Corollary copy_eq_stdlib : forall mv j,
-    marshal mv = ("{"%char :: j, false) ->
-    json_dec ("{"%char :: j) = Ok mv ->
-    containsb esc_lt j = false -> containsb esc_gt j = false -> containsb esc_amp j = false ->
-    map_copy marshal json_dec mv = Ok mv.
+  (* ... stated about encoding/json alone: Encode writes the value's text j and a newline, Decode reads j back *)
+  Corollary copy_eq_stdlib : forall m j,
+    encode false (VMap m) = Some (j ++ [nl_byte]) -> j <> [] ->
+    json_dec j = Ok (VMap m) ->
+    map_copy encode json_dec (VMap m) = Ok (VMap m).
   Proof.
-    intros mv j Hm Hd H1 H2 H3. apply copy_eq with (j := j); [exact Hm|].
-    rewrite json_post_brace. rewrite (json_post_id j H1 H2 H3). exact Hd.
+    intros m j He Hn Hd. apply copy_eq with (b := j ++ [nl_byte]); rewrite ?trim_nl_app; assumption.
   Qed.
 
-  Theorem copy_marshal_error : forall mv j,
-    marshal mv = (j, true) -> map_copy marshal json_dec mv = Err EOther.
-  Proof. intros mv j Hm. unfold map_copy, map_json. now rewrite Hm. Qed.
+  Theorem copy_encode_error : forall mv,
+    encode false mv = None -> map_copy encode json_dec mv = Err EOther.
+  Proof. intros mv He. unfold map_copy, map_json, marshal_json. now rewrite He. Qed.
 End CopyFacts.
 
-(* the bytes json.Marshal returns for a Map whose value under "a" is the six characters
-   backslash u 0 0 3 c: the backslash is escaped (two backslashes, then u003c) *)
-Definition marshal_bsl_u003c : bytes :=
-  s "{""a"":""" ++ [bsl; bsl] ++ s "u003c""}".
-
-Lemma json_rewrite_refuted :
-  valid_escapes marshal_bsl_u003c false = true /\
-  json_post marshal_bsl_u003c = s "{""a"":""" ++ [bsl] ++ s "<""}" /\
-  valid_escapes (json_post marshal_bsl_u003c) false = false.
-Proof. repeat split; vm_compute; reflexivity. Qed.
-
 (* ------------------------------------------------------------------ *)
-(* the getJson scanner: a string value that ends in a backslash never closes *)
-Definition doc_trailing_bsl : bytes := s "{""a"":""x" ++ [bsl; bsl] ++ s """}".   (* Json() of Map{"a": `x\`} *)
-Definition doc_plain : bytes := s "{""b"":""y""}".
+(* the getJson scanner inside string literals *)
 
-Lemma scanner_trailing_backslash_refuted :
-  valid_escapes doc_trailing_bsl false = true /\
-  scan_json (doc_trailing_bsl ++ doc_plain) = SNoClose (doc_trailing_bsl ++ doc_plain) /\
-  (forall dec, t_err (json_reader_raw dec (doc_trailing_bsl ++ doc_plain)) = ROther).
-Proof. repeat split; intros; vm_compute; reflexivity. Qed.
+Lemma in_string_step : forall c x jb k esc,
+  get_json (c :: x) jb true true (S k) esc =
+  if Ascii.eqb c """"%char && negb esc then get_json x (c :: jb) false true (S k) false
+  else get_json x (c :: jb) true true (S k) (negb esc && Ascii.eqb c bsl).
+Proof.
+  intros c x jb k esc. cbn [get_json].
+  destruct (Ascii.eqb c "{"%char) eqn:E1.
+  { apply Ascii.eqb_eq in E1. subst c. destruct esc; reflexivity. }
+  destruct (Ascii.eqb c "}"%char) eqn:E2.
+  { apply Ascii.eqb_eq in E2. subst c. destruct esc; reflexivity. }
+  destruct (Ascii.eqb c """"%char) eqn:E3.
+  { apply Ascii.eqb_eq in E3. subst c. destruct esc; reflexivity. }
+  destruct (is_json_ws c); destruct esc; reflexivity.
+Qed.
 
-(* a stray closing brace makes NewMapJsonReaderRaw dereference a nil pointer *)
-Lemma scanner_stray_brace_panics : forall dec,
-  t_err (json_reader_raw dec (s "}")) = RPanic.
-Proof. intros. vm_compute. reflexivity. Qed.
+Lemma in_string_body : forall us x jb k, forallb unit_ok us = true ->
+  get_json (render_body us ++ x) jb true true (S k) false =
+  get_json x (rev (render_body us) ++ jb) true true (S k) false.
+Proof.
+  induction us as [|u us IH]; intros x jb k H; [reflexivity|].
+  cbn [forallb] in H. apply andb_prop in H. destruct H as [Hu H].
+  unfold render_body in *. cbn [flat_map]. rewrite <- app_assoc.
+  destruct u as [c|c]; cbn [render_unit app].
+  - cbn [unit_ok] in Hu. apply andb_prop in Hu. destruct Hu as [H1 H2].
+    apply Bool.negb_true_iff in H1. apply Bool.negb_true_iff in H2.
+    rewrite in_string_step. rewrite H1, H2. cbn [andb negb].
+    rewrite IH by exact H. cbn [rev]. now rewrite <- app_assoc.
+  - rewrite in_string_step. replace (Ascii.eqb bsl """"%char) with false by reflexivity.
+    replace (Ascii.eqb bsl bsl) with true by reflexivity. cbn [andb negb].
+    rewrite in_string_step. cbn [andb negb]. rewrite Bool.andb_false_r.
+    rewrite IH by exact H. cbn [rev]. rewrite <- !app_assoc. reflexivity.
+Qed.
 
-(* the scanner on ordinary documents: concrete instances of Reads with a symbolic rest *)
+Lemma field_doc_app : forall k v rest,
+  field_doc k v ++ rest =
+  "{"%char :: """"%char :: (render_body k ++ """"%char :: ":"%char :: """"%char :: (render_body v ++ """"%char :: "}"%char :: rest)).
+Proof.
+  intros. unfold field_doc. cbn [app]. rewrite <- app_assoc. cbn [app]. rewrite <- app_assoc. reflexivity.
+Qed.
+
+(* every one-field document, whatever its key and value contain - braces, escaped quotes,
+   any number of trailing escaped backslashes - is taken from the front of the input, whole *)
+Theorem scan_field_doc : forall k v rest,
+  forallb unit_ok k = true -> forallb unit_ok v = true ->
+  scan_json (field_doc k v ++ rest) = SDoc (field_doc k v) rest.
+Proof.
+  intros k v rest Hk Hv. rewrite field_doc_app. unfold scan_json.
+  change (get_json ("{"%char :: """"%char :: ?x) [] false false 0 false)
+    with (get_json x [""""%char; "{"%char] true true 1 false).
+  rewrite (in_string_body k _ _ 0 Hk).
+  rewrite in_string_step. cbn [Ascii.eqb Bool.eqb andb negb].
+  match goal with |- get_json (":"%char :: """"%char :: ?x) ?jb false true 1 false = _ =>
+    change (get_json (":"%char :: """"%char :: x) jb false true 1 false)
+      with (get_json x (""""%char :: ":"%char :: jb) true true 1 false) end.
+  rewrite (in_string_body v _ _ 0 Hv).
+  rewrite in_string_step. cbn [Ascii.eqb Bool.eqb andb negb].
+  match goal with |- get_json ("}"%char :: ?x) ?jb false true 1 false = _ =>
+    change (get_json ("}"%char :: x) jb false true 1 false) with (SDoc (rev ("}"%char :: jb)) x) end.
+  f_equal. unfold field_doc. cbn [rev]. rewrite !rev_app_distr. cbn [rev app].
+  rewrite !rev_app_distr. rewrite !rev_involutive. cbn [rev app]. rewrite <- !app_assoc. cbn [app].
+  reflexivity.
+Qed.
+
+(* hence the reader takes it, for every decoder that decodes its text to an object *)
+Theorem reader_reads_field_doc : forall json_dec k v m,
+  forallb unit_ok k = true -> forallb unit_ok v = true ->
+  json_dec (field_doc k v) = Ok (VMap m) ->
+  Reads (json_reader_raw json_dec) (field_doc k v) (VMap m, field_doc k v).
+Proof.
+  intros dec k v m Hk Hv Hd rest. unfold json_reader_raw. rewrite (scan_field_doc k v rest Hk Hv).
+  unfold new_map_json. unfold field_doc at 1. rewrite Hd. reflexivity.
+Qed.
+
+Lemma json_at_eof : forall json_dec, AtEOF (json_reader_raw json_dec) keep_raw.
+Proof. intros. split; reflexivity. Qed.
+
+(* a file of such documents (what JsonFile writes for one-field Maps with string values) reads back whole *)
+Theorem field_docs_file_roundtrip : forall json_dec (kvs : list (list junit * list junit)) (mk : list junit * list junit -> entries),
+  Forall (fun kv => forallb unit_ok (fst kv) = true /\ forallb unit_ok (snd kv) = true /\
+                    json_dec (field_doc (fst kv) (snd kv)) = Ok (VMap (mk kv))) kvs ->
+  read_all (json_reader_raw json_dec) keep_raw (concat (map (fun kv => field_doc (fst kv) (snd kv)) kvs)) =
+  FR false (map (fun kv => (VMap (mk kv), field_doc (fst kv) (snd kv))) kvs) false.
+Proof.
+  intros dec kvs mk H.
+  apply file_roundtrip_all_kept; [apply json_at_eof | | ].
+  - induction H as [|kv kvs [Hk [Hv Hd]] H IH]; cbn [map]; constructor; [|exact IH].
+    apply reader_reads_field_doc; assumption.
+  - clear H. induction kvs; cbn [map]; constructor; [reflexivity | assumption].
+Qed.
+
+(* the document the pinned tree could not read: value x followed by a backslash *)
+Definition doc_trailing_bsl : bytes := field_doc [UPlain "a"%char] [UPlain "x"%char; UEsc bsl].
+Definition doc_plain : bytes := field_doc [UPlain "b"%char] [UPlain "y"%char].
+
 Definition toy_dec (j : bytes) : res value := Ok (VMap [(s "json", VStr j)]).
 
-Lemma scanner_reads_example : forall rest,
-  json_reader_raw toy_dec (s "{""a"":{""b"":""}{\"" x""}}" ++ rest) =
-  mkTaken (VMap [(s "json", VStr (s "{""a"":{""b"":""}{\"" x""}}"))], s "{""a"":{""b"":""}{\"" x""}}") RNil rest.
-Proof. intros. vm_compute. reflexivity. Qed.
+Lemma trailing_backslash_file :
+  doc_trailing_bsl = s "{""a"":""x" ++ [bsl; bsl] ++ s """}" /\
+  new_maps_from_file_raw (json_reader_raw toy_dec) (file_fuel (doc_trailing_bsl ++ doc_plain))
+    (Opened (doc_trailing_bsl ++ doc_plain)) =
+  FR false [(VMap [(s "json", VStr doc_trailing_bsl)], doc_trailing_bsl);
+            (VMap [(s "json", VStr doc_plain)], doc_plain)] false.
+Proof. split; vm_compute; reflexivity. Qed.
 
-(* ------------------------------------------------------------------ *)
-(* the file functions over the transcribed JSON reader: refutation witnesses *)
+(* a closing brace outside any document is an error of the reader (fix 9f7e6ef; a nil-pointer panic before) *)
+Lemma scanner_stray_brace_error : forall dec rest,
+  json_reader_raw dec ("}"%char :: rest) = mkTaken (VNil, []) ROther rest.
+Proof. intros. reflexivity. Qed.
 
-Lemma empty_object_skipped : forall json_dec,
+(* whole documents followed by a stray closing brace: the error together with the Maps read so far *)
+Lemma stray_brace_file_error : forall json_dec bs ds rest,
+  Forall2 (Reads (json_reader_raw json_dec)) bs ds ->
+  read_all (json_reader_raw json_dec) keep_raw (concat bs ++ "}"%char :: rest) = FR false (kept keep_raw ds) true.
+Proof.
+  intros dec bs ds rest H. apply malformed_tail_error; [apply json_at_eof | exact H |].
+  rewrite scanner_stray_brace_error. reflexivity.
+Qed.
+
+(* the document {} is a Map like any other (fix fd230a2: the loops test m != nil) *)
+Lemma empty_object_read : forall json_dec,
   json_dec (s "{}") = Ok (VMap []) ->
-  new_maps_from_file_raw (json_reader_raw json_dec) (file_fuel (s "{}")) (Opened (s "{}")) = FR false [] false
-  /\ new_maps_from_file (json_reader_raw json_dec) (file_fuel (s "{}")) (Opened (s "{}")) = FR false [] false.
+  new_maps_from_file_raw (json_reader_raw json_dec) (file_fuel (s "{}")) (Opened (s "{}")) = FR false [(VMap [], s "{}")] false
+  /\ new_maps_from_file (json_reader_raw json_dec) (file_fuel (s "{}")) (Opened (s "{}")) = FR false [VMap []] false.
 Proof.
   intros dec H.
   assert (E : json_reader_raw dec (s "{}") = mkTaken (VMap [], s "{}") RNil []).
   { unfold json_reader_raw. replace (scan_json (s "{}")) with (SDoc (s "{}") []) by (vm_compute; reflexivity).
-    unfold new_map_json. cbn [s list_ascii_of_string]. cbn [Ascii.eqb Bool.eqb].
+    unfold new_map_json. cbn [s list_ascii_of_string].
     change ("{"%char :: "}"%char :: []) with (s "{}"). rewrite H. reflexivity. }
   assert (E0 : json_reader_raw dec [] = mkTaken (VNil, []) REOF []) by reflexivity.
-  split.
-  - unfold new_maps_from_file_raw, maps_from_file, file_fuel. cbn [length s list_ascii_of_string read_loop].
-    change ("{"%char :: "}"%char :: []) with (s "{}"). rewrite E. cbn [t_err t_doc t_rest keep_raw fst map_len_pos].
-    rewrite E0. reflexivity.
-  - rewrite raw_nonraw_agree.
-    unfold new_maps_from_file_raw, maps_from_file, file_fuel. cbn [length s list_ascii_of_string read_loop].
-    change ("{"%char :: "}"%char :: []) with (s "{}"). rewrite E. cbn [t_err t_doc t_rest keep_raw fst map_len_pos].
-    rewrite E0. reflexivity.
+  assert (R : new_maps_from_file_raw (json_reader_raw dec) (file_fuel (s "{}")) (Opened (s "{}")) = FR false [(VMap [], s "{}")] false).
+  { unfold new_maps_from_file_raw, maps_from_file, file_fuel. cbn [length s list_ascii_of_string read_loop].
+    change ("{"%char :: "}"%char :: []) with (s "{}"). rewrite E. cbn [t_err t_doc t_rest keep_raw fst map_not_nil app].
+    rewrite E0. reflexivity. }
+  split; [exact R|]. rewrite raw_nonraw_agree, R. reflexivity.
 Qed.
 
-Lemma stray_brace_file_panics : forall json_dec,
-  new_maps_from_file_raw (json_reader_raw json_dec) (file_fuel (s "}")) (Opened (s "}")) = FRPanic.
-Proof. intros. vm_compute. reflexivity. Qed.
-
-Lemma trailing_backslash_file : forall json_dec,
-  valid_escapes doc_trailing_bsl false = true /\
-  new_maps_from_file_raw (json_reader_raw json_dec) (file_fuel (doc_trailing_bsl ++ doc_plain))
-    (Opened (doc_trailing_bsl ++ doc_plain)) = FR false [] true.
-Proof. intros. split; vm_compute; reflexivity. Qed.
+(* every Map a decoder returns is kept: the read-back has as many Maps as the file has documents *)
+Lemma keep_raw_map : forall m r, keep_raw (VMap m, r) = true.
+Proof. reflexivity. Qed.
 
 (* ------------------------------------------------------------------ *)
 (* non-vacuity: the hypotheses hold of the transcribed reader on concrete documents *)
@@ -595,4 +639,21 @@ Proof.
     destruct Hb as [<-|[<-|[]]]; vm_compute;
       repeat (constructor; [intros H; try discriminate H; reflexivity|]); constructor.
   - vm_compute. reflexivity.
+Qed.
+
+(* ------------------------------------------------------------------ *)
+(* same number of Maps: a decoder never returns a nil Map without an error, so every document is kept *)
+Lemma same_number : forall (M : Type) (enc : M -> bytes) (dec : M -> mapraw)
+    (take : bytes -> taken bytes mapraw) (ij : bool),
+  AtEOF take keep_raw ->
+  (forall m, Reads take (enc m) (dec m)) ->
+  (forall m, Reads take ((if ij then nl else []) ++ enc m) (dec m)) ->
+  (forall m, map_not_nil (fst (dec m)) = true) ->
+  forall ms, exists file,
+    maps_file (fun m => Some (enc m)) ij ms true = (Some file, false) /\
+    read_all take keep_raw file = FR false (map dec ms) false.
+Proof.
+  intros M enc dec take ij He H1 H2 Hk ms.
+  apply write_read_same_maps; try assumption.
+  apply Forall_forall. intros m _. apply Hk.
 Qed.
